@@ -1,12 +1,301 @@
 /-
-  Driver/OpsOptim.lean — driver ops of the "Optim" unit (stub: serves nothing yet).
-  Interface: return `none` for requests this unit does not serve, `some reply` otherwise.
+  Driver/OpsOptim.lean — driver ops of the optimizer unit (C09, C10).
+
+  * `opt_replay <ceres|disney> f64 δ0 reduce0 ncalls (ftol ptol max_iter K (rn fxpn linn ddxn n)^K)^ncalls`
+      re-executes the decision logic of the model (`Optim.replay`: rho, strategy update, acceptance
+      rule, Ftol/Ptol tests, loop guard, counters) in `Float` on the observables logged from a run
+      of the real `smooth::minimize`; the strategy state is carried from one call to the next (a
+      strategy object shared across calls).  Reply per call:
+      `(Δbefore rho take accepted Δafter)^iters  iter status ncallbacks`   (status 0 Ftol 1 Ptol 2 MaxIters)
+  * `opt_colnorm - f64 m n J`  → model `colwise_norm` (dense) and the clamped scaling `d`.
+  * `opt_tr <kind> f64a m n J d r Δ λ  dxT_d λT_d dxT_s λT_s dxL_d dphi_d dxL_s dphi_s cn_d cn_s cn_r`
+      exact audit of the implementation's outputs (Rat / 320-bit fixed point).  Reply (f64 words):
+       0 non-finite flag            1..4 normal-equation backward error of dxL_d dxL_s dxT_d dxT_s
+       5 descent excess (‖Jx+r‖²−‖r‖²)/‖r‖², exact sign, max over the four solutions (≤ 0 required)
+       6 λ ≠ fl(1/Δ) flag           7 colwise_norm relative error (dense, sparse col-major, sparse row-major)
+       8 dense-vs-sparse relative difference (L)      9 the same (T)
+      10 cond∞(H(λ))               11 cond∞(H(λT))
+      12 dphi relative error dense  13 sparse          14 forward error of dxL_d
+      15 T≠L flag when λT = λ bitwise                  16 exact dphi          17 zero-step flag violation
 -/
 import SmoothModel
+import SmoothModel.Optim
 import Driver.Ops
+
+open Scalar Lin Oracle
 
 namespace Drv
 
-def runOptim (_op _grp _prec : String) (_args : Array String) : Option String := none
+-- ------------------------------------------------------------------------------------ opt_replay
+def rhoToFloat : Optim.Rho Float → Float
+  | .fin x => x
+  | .pinf => 1.0 / 0.0
+  | .ninf => -1.0 / 0.0
+  | .nan => 0.0 / 0.0
+
+def b2f (b : Bool) : Float := if b then 1.0 else 0.0
+
+def statusCode : Option Optim.Status → Float
+  | some .Ftol => 0.0
+  | some .Ptol => 1.0
+  | _ => 2.0
+
+/-- parse the per-call blocks; returns the reply words -/
+partial def replayCalls (x : Array Float) (pos : Nat) (ncalls : Nat) (st : Optim.Strat Float) (acc : Array Float) :
+    Except String (Array Float) :=
+  if ncalls == 0 then
+    if pos == x.size then .ok acc else .error s!"trailing words {x.size - pos}"
+  else
+    if pos + 4 > x.size then .error "short call header" else
+    let ftol := x[pos]!
+    let ptol := x[pos + 1]!
+    let maxIter := x[pos + 2]!.toUInt64.toNat
+    let k := x[pos + 3]!.toUInt64.toNat
+    if pos + 4 + 5 * k > x.size then .error "short call body" else
+    let obs : List (Optim.Obs Float) := (List.range k).map (fun i =>
+      let o := pos + 4 + 5 * i
+      ⟨x[o]!, x[o + 1]!, x[o + 2]!, x[o + 3]!, x[o + 4]!.toUInt64.toNat⟩)
+    let opts : Optim.Opts Float := ⟨ftol, ptol, maxIter⟩
+    let s0 : Optim.State Unit (Optim.Strat Float) := Optim.initState () st
+    let (sf, tr) := Optim.replay Optim.builtinOps opts obs s0 []
+    let words := tr.foldl (fun (a : Array Float) t =>
+      a ++ #[t.deltaBefore, rhoToFloat t.rho, b2f t.take, b2f t.accepted, t.deltaAfter]) acc
+    let res := Optim.finish sf
+    let words := words ++ #[res.iter.toFloat, statusCode (some res.status), res.callbacks.length.toFloat]
+    replayCalls x (pos + 4 + 5 * k) (ncalls - 1) sf.strat words
+
+def optReplay (grp : String) (x : Array Float) : Except String (Array Float) := do
+  if x.size < 3 then throw "short"
+  let kind ← match grp with
+    | "ceres" => pure Optim.StratKind.ceres
+    | "disney" => pure Optim.StratKind.disney
+    | _ => throw s!"unknown strategy {grp}"
+  let st : Optim.Strat Float := ⟨kind, x[0]!, x[1]!⟩
+  replayCalls x 3 x[2]!.toUInt64.toNat st #[]
+
+-- ------------------------------------------------------------------------------------ opt_colnorm
+def optColnorm (x : Array Float) : Except String (Array Float) := do
+  if x.size < 2 then throw "short"
+  let m := x[0]!.toUInt64.toNat
+  let n := x[1]!.toUInt64.toNat
+  if x.size != 2 + m * n then throw s!"arity: got {x.size} want {2 + m * n}"
+  let J : Mat Float m n := memoM (matOfArray m n x 2)
+  let cn := memoV (Optim.colNormDense J)
+  return toArray cn ++ toArray (Optim.scaling J)
+
+-- ------------------------------------------------------------------------------------ opt_tr (audit)
+/-- fixed-point Gauss–Jordan inverse with partial pivoting; entries are `value · 2^FB` -/
+def bfInverse (n : Nat) (A : Array (Array Int)) : Option (Array (Array Int)) := Id.run do
+  let one : Int := BigFix.one
+  let mut M : Array (Array Int) := Array.ofFn (n := n) (fun i =>
+    Array.ofFn (n := 2 * n) (fun j =>
+      if j.val < n then (A[i.val]!)[j.val]! else if j.val - n == i.val then one else 0))
+  for c in [0:n] do
+    let mut p := c
+    let mut best : Nat := 0
+    for r in [c:n] do
+      let v := ((M[r]!)[c]!).natAbs
+      if v > best then
+        best := v; p := r
+    if best == 0 then return none
+    let rowp := M[p]!
+    let rowc := M[c]!
+    M := (M.set! p rowc).set! c rowp
+    let piv := (M[c]!)[c]!
+    let prow := (M[c]!).map (fun v => (v * one) / piv)
+    M := M.set! c prow
+    for r in [0:n] do
+      if r != c then
+        let f := (M[r]!)[c]!
+        if f != 0 then
+          let row := M[r]!
+          let nr := Array.ofFn (n := 2 * n) (fun j => row[j.val]! - (f * prow[j.val]!) / one)
+          M := M.set! r nr
+  return some (Array.ofFn (n := n) (fun i => Array.ofFn (n := n) (fun j => (M[i.val]!)[n + j.val]!)))
+
+def bf2f (x : Int) : Float := ratToFloat (BigFix.toRat x)
+
+def rabs (q : Rat) : Rat := if q < 0 then -q else q
+def vmaxAbs (v : Array Rat) : Rat := v.foldl (fun s x => if s < rabs x then rabs x else s) 0
+def rowSumNorm (n : Nat) (g : Nat → Nat → Rat) : Rat :=
+  (List.range n).foldl (fun s i =>
+    let rs := (List.range n).foldl (fun t j => t + rabs (g i j)) 0
+    if s < rs then rs else s) 0
+
+structure TrCtx where
+  m : Nat
+  n : Nat
+  J : Array Rat      -- row-major
+  d : Array Rat
+  r : Array Rat
+  JtJ : Array Rat    -- n×n
+  Jtr : Array Rat    -- n
+  rr : Rat           -- ‖r‖²
+
+def TrCtx.Jij (c : TrCtx) (i j : Nat) : Rat := c.J[i * c.n + j]!
+def TrCtx.H (c : TrCtx) (lam : Rat) (i j : Nat) : Rat :=
+  c.JtJ[i * c.n + j]! + (if i == j then lam * c.d[i]! * c.d[i]! else 0)
+
+def mkCtx (m n : Nat) (J d r : Array Rat) : TrCtx :=
+  let JtJ := Array.ofFn (n := n * n) (fun k =>
+    let i := k.val / n
+    let j := k.val % n
+    (List.range m).foldl (fun s l => s + J[l * n + i]! * J[l * n + j]!) 0)
+  let Jtr := Array.ofFn (n := n) (fun i => (List.range m).foldl (fun s l => s + J[l * n + i.val]! * r[l]!) 0)
+  ⟨m, n, J, d, r, JtJ, Jtr, r.foldl (fun s v => s + v * v) 0⟩
+
+/-- ‖Hx + Jᵀr‖∞ / (‖H‖∞‖x‖∞ + ‖Jᵀr‖∞) -/
+def backwardErr (c : TrCtx) (lam : Rat) (x : Array Rat) : Float :=
+  let res := Array.ofFn (n := c.n) (fun i =>
+    (List.range c.n).foldl (fun s j => s + c.H lam i.val j * x[j]!) 0 + c.Jtr[i.val]!)
+  let hn := rowSumNorm c.n (c.H lam)
+  let den := hn * vmaxAbs x + vmaxAbs c.Jtr
+  if den == 0 then (if vmaxAbs res == 0 then 0.0 else 1e300) else ratToFloat (vmaxAbs res / den)
+
+/-- (‖Jx + r‖² − ‖r‖²)/‖r‖² with the exact sign (0 when the difference is ≤ 0 … reported as is) -/
+def descentExcess (c : TrCtx) (x : Array Rat) : Float :=
+  let lin := Array.ofFn (n := c.m) (fun i =>
+    (List.range c.n).foldl (fun s j => s + c.Jij i.val j * x[j]!) 0 + c.r[i.val]!)
+  let ll := lin.foldl (fun s v => s + v * v) 0
+  let diff := ll - c.rr
+  if diff ≤ 0 then
+    (if c.rr == 0 then 0.0 else ratToFloat (diff / c.rr))
+  else
+    (if c.rr == 0 then 1e300 else
+      let v := ratToFloat (diff / c.rr)
+      if v > 0.0 then v else 1e-300)
+
+def relDiff (a b : Array Rat) : Float :=
+  let d := vmaxAbs (Array.ofFn (n := a.size) (fun i => a[i.val]! - b[i.val]!))
+  let s := vmaxAbs a
+  if d == 0 then 0.0 else if s == 0 then 1e300 else ratToFloat (d / s)
+
+/-- relative error of the column norms against the exact `√Σ J_ij²` (compared through the squares) -/
+def colnormErr (c : TrCtx) (cn : Array Rat) : Float :=
+  (List.range c.n).foldl (fun (worst : Float) j =>
+    let s := c.JtJ[j * c.n + j]!
+    let v := cn[j]!
+    let e : Float :=
+      if s == 0 then (if v == 0 then 0.0 else 1e300)
+      else ratToFloat (rabs (v * v - s) / (2 * s))
+    if e > worst then e else worst) 0.0
+
+structure ExactSol where
+  cond : Float
+  x : Array Int        -- BigFix
+  dphi : Float
+  ok : Bool
+
+/-- exact (320-bit) solution of the regularised normal equations, condition number, dphi -/
+def exactSol (c : TrCtx) (lam : Rat) : ExactSol :=
+  let n := c.n
+  let A : Array (Array Int) := Array.ofFn (n := n) (fun i => Array.ofFn (n := n) (fun j => BigFix.ofRat (c.H lam i.val j.val)))
+  match bfInverse n A with
+  | none => ⟨1e300, #[], 0.0, false⟩
+  | some Hi =>
+    let hn := ratToFloat (rowSumNorm n (c.H lam))
+    let hin : Int := (List.range n).foldl (fun s i =>
+      let rs : Int := (List.range n).foldl (fun t j => t + ((Hi[i]!)[j]!).natAbs) 0
+      if s < rs then rs else s) 0
+    let b : Array Int := c.Jtr.map (fun v => BigFix.ofRat (-v))
+    let x : Array Int := Array.ofFn (n := n) (fun i =>
+      (List.range n).foldl (fun s j => s + BigFix.mul ((Hi[i.val]!)[j]!) b[j]!) 0)
+    -- D²x, ‖Dx‖², (D²x)ᵀ H⁻¹ (D²x)
+    let dB : Array Int := c.d.map BigFix.ofRat
+    let d2x : Array Int := Array.ofFn (n := n) (fun i => BigFix.mul (BigFix.mul dB[i.val]! dB[i.val]!) x[i.val]!)
+    let dx2 : Int := (List.range n).foldl (fun s i => let t := BigFix.mul dB[i]! x[i]!; s + BigFix.mul t t) 0
+    let hd : Array Int := Array.ofFn (n := n) (fun i =>
+      (List.range n).foldl (fun s j => s + BigFix.mul ((Hi[i.val]!)[j]!) d2x[j]!) 0)
+    let q : Int := (List.range n).foldl (fun s i => s + BigFix.mul d2x[i]! hd[i]!) 0
+    let dphi : Float :=
+      if dx2 == 0 then 0.0
+      else
+        -- −q/√dx2 : scale to keep the Float conversion in range
+        let qf := BigFix.toRat q
+        let sf := BigFix.toRat dx2
+        -- √(sf) via Float on a rational scaled by an even power of two
+        let e : Int := ((sf.num.natAbs.log2 : Int) - (sf.den.log2 : Int)) / 2
+        let scale : Rat := if e ≥ 0 then (2 : Rat) ^ e.toNat else 1 / (2 : Rat) ^ (-e).toNat
+        let root := Float.sqrt (ratToFloat (sf / (scale * scale)))   -- in [~0.5, ~4)
+        Float.neg (ratToFloat (qf / scale) / root)
+    ⟨hn * bf2f hin, x, dphi, true⟩
+
+def relErrF (a ref : Float) : Float :=
+  if ref == 0.0 then a.abs else ((a - ref) / ref).abs
+
+def optTrAudit (args : Array String) : Except String (Array Float) := do
+  if args.size < 2 then throw "short"
+  let bits := args.map parseHex
+  let m := (Float.ofBits bits[0]!).toUInt64.toNat
+  let n := (Float.ofBits bits[1]!).toUInt64.toNat
+  let nin := 2 + m * n + n + m + 2
+  let nout := 7 * n + 4
+  if args.size != nin + nout then throw s!"arity: got {args.size} want {nin + nout}"
+  let finite := bits.all isFinite64
+  let q := bits.map ratOfBits64
+  let J := q.extract 2 (2 + m * n)
+  let d := q.extract (2 + m * n) (2 + m * n + n)
+  let r := q.extract (2 + m * n + n) (2 + m * n + n + m)
+  let deltaBits := bits[nin - 2]!
+  let lam := q[nin - 1]!
+  let o := nin
+  let dxTd := q.extract o (o + n)
+  let lamTdBits := bits[o + n]!
+  let dxTs := q.extract (o + n + 1) (o + 2 * n + 1)
+  let lamTsBits := bits[o + 2 * n + 1]!
+  let dxLd := q.extract (o + 2 * n + 2) (o + 3 * n + 2)
+  let dphid := Float.ofBits bits[o + 3 * n + 2]!
+  let dxLs := q.extract (o + 3 * n + 3) (o + 4 * n + 3)
+  let dphis := Float.ofBits bits[o + 4 * n + 3]!
+  let cnd := q.extract (o + 4 * n + 4) (o + 5 * n + 4)
+  let cns := q.extract (o + 5 * n + 4) (o + 6 * n + 4)
+  let cnr := q.extract (o + 6 * n + 4) (o + 7 * n + 4)
+  if !finite then
+    return #[1.0] ++ Array.replicate 17 0.0
+  let c := mkCtx m n J d r
+  let lamT := ratOfBits64 lamTdBits
+  let e1 := backwardErr c lam dxLd
+  let e2 := backwardErr c lam dxLs
+  let e3 := backwardErr c lamT dxTd
+  let e4 := backwardErr c lamT dxTs
+  let fmax (a b : Float) : Float := if a > b then a else b
+  let e5 := fmax (fmax (descentExcess c dxLd) (descentExcess c dxLs)) (fmax (descentExcess c dxTd) (descentExcess c dxTs))
+  let lamModel : Float := Optim.lambdaOf (Float.ofBits deltaBits)
+  let e6 : Float := if lamModel.toBits == lamTdBits && lamModel.toBits == lamTsBits then 0.0 else 1.0
+  let e7 := fmax (colnormErr c cnd) (fmax (colnormErr c cns) (colnormErr c cnr))
+  let e8 := relDiff dxLd dxLs
+  let e9 := relDiff dxTd dxTs
+  let exL := exactSol c lam
+  let exT := if lamT == lam then exL else exactSol c lamT
+  let e12 := relErrF dphid exL.dphi
+  let e13 := relErrF dphis exL.dphi
+  let xr : Array Rat := exL.x.map BigFix.toRat
+  let e14 := if exL.ok then relDiff xr dxLd else 1e300
+  let sameLam := lamTdBits == bits[nin - 1]!
+  let e15 : Float :=
+    if sameLam then
+      (if (List.range n).all (fun i => bits[o + i]! == bits[o + 2 * n + 2 + i]!) then 0.0 else 1.0)
+    else 0.0
+  -- zero residual / zero gradient ⇒ the step must be exactly zero
+  let gradZero := c.Jtr.all (· == 0)
+  let e17 : Float :=
+    if gradZero && !(dxLd.all (· == 0) && dxLs.all (· == 0) && dxTd.all (· == 0) && dxTs.all (· == 0)) then 1.0 else 0.0
+  return #[0.0, e1, e2, e3, e4, e5, e6, e7, e8, e9, exL.cond, exT.cond, e12, e13, e14, e15, exL.dphi, e17]
+
+-- ------------------------------------------------------------------------------------ dispatch
+def fwords (r : Except String (Array Float)) : String :=
+  match r with
+  | .ok out => " ".intercalate (out.toList.map Bits.toHex)
+  | .error e => "ERR " ++ e
+
+def runOptim (op grp prec : String) (args : Array String) : Option String :=
+  match op with
+  | "opt_replay" =>
+    if prec == "f64" then some (fwords (optReplay grp (args.map Bits.ofHex))) else some "ERR opt_replay needs f64"
+  | "opt_colnorm" =>
+    if prec == "f64" then some (fwords (optColnorm (args.map Bits.ofHex))) else some "ERR opt_colnorm needs f64"
+  | "opt_tr" =>
+    if prec == "f64a" then some (fwords (optTrAudit args)) else some "ERR opt_tr needs f64a"
+  | _ => none
 
 end Drv
